@@ -15,12 +15,14 @@ pub fn gen_id(cx: &mut Ctx) -> u16 {
 }
 
 pub fn gen_other_id(cx: &mut Ctx, own: u16, allow_zero: bool) -> u16 {
-    loop {
+    // bounded: a replayed (minimised) choice list may keep returning the same value
+    for _ in 0..4 {
         let c = if cx.ch.chance(1, 3) { cx.ch.range(0, 65535) as u16 } else { cx.ch.one_of(&[0u16, 1, 2, 255, 256, 65535, 7]) };
         if c != own && (allow_zero || c != 0) {
             return c;
         }
     }
+    [7u16, 9, 11].into_iter().find(|&c| c != own).expect("three candidates")
 }
 
 pub fn gen_padding(cx: &mut Ctx) -> u8 {
@@ -241,10 +243,12 @@ pub fn gen_noise(cx: &mut Ctx, phase: Phase, own: u16, max_pair: usize) -> Rec {
         }
         1 => {
             cx.probe("noise_unknown_type");
-            let t = loop {
-                let t = if cx.ch.chance(1, 2) { cx.ch.one_of(&[0u8, 12, 13, 127, 128, 255, 0xa7]) } else { cx.ch.byte() };
-                if !is_known_type(t) { break t; }
-            };
+            let mut t = 0u8;
+            for _ in 0..4 {
+                t = if cx.ch.chance(1, 2) { cx.ch.one_of(&[0u8, 12, 13, 127, 128, 255, 0xa7]) } else { cx.ch.byte() };
+                if !is_known_type(t) { break; }
+                t = 0xa7;
+            }
             let id = if cx.ch.chance(1, 2) { 0 } else if cx.ch.chance(1, 2) { own } else { gen_other_id(cx, own, true) };
             Rec::new(t, id, small(cx), pad)
         }
